@@ -31,6 +31,7 @@ func init() {
 	register("c10.w2", opC10W2)
 	register("c10.w1", opC10W1)
 	register("c10.rand", opC10Rand)
+	register("c10.hullq", opC10HullQ)
 }
 
 // ------------------------------------------------------------------ recorder
@@ -1268,4 +1269,179 @@ func opC10Rand(raw json.RawMessage, o *Out) {
 		_ = before
 	}
 	o.sample = map[string]any{"op": "c10.rand", "family": c.Family, "seed": c.Seed, "count": c.Count}
+}
+
+// ---------------------------------------------------------------- hull query histories
+
+type c10HQWant struct {
+	N       int
+	Inputs  []emb.P3
+	Hull    []emb.P3
+	Robust  bool
+	Must    []emb.P3
+	Mustnot []emb.P3
+}
+
+type c10HQStep struct {
+	A     string
+	Pts   []emb.P3
+	K     int
+	Loops []struct {
+		V []emb.P3
+		D int
+	}
+	Want *c10HQWant
+}
+
+// c10HQApply feeds one Add* operation of a HullQuery.tla behaviour to a query object.
+func c10HQApply(q *s2.ConvexHullQuery, st c10HQStep) {
+	pts := func(ps []emb.P3) []s2.Point {
+		var out []s2.Point
+		for _, p := range ps {
+			out = append(out, emb.Unit(p))
+		}
+		return out
+	}
+	switch st.A {
+	case "AddPoint":
+		q.AddPoint(emb.Unit(st.Pts[0]))
+	case "AddPolyline":
+		pl := s2.Polyline(pts(st.Pts))
+		q.AddPolyline(&pl)
+	case "AddLoop":
+		q.AddLoop(s2.LoopFromPoints(pts(st.Pts)))
+	case "AddPolygon":
+		var loops []*s2.Loop
+		for _, l := range st.Loops {
+			lp := s2.LoopFromPoints(pts(l.V))
+			lp.Normalize()
+			loops = append(loops, lp)
+		}
+		q.AddPolygon(s2.PolygonFromLoops(loops))
+	}
+}
+
+// opC10HullQ replays a behaviour of HullQuery.tla on ONE ConvexHullQuery object.  After every query step
+// the answer must be the model's function of the input set so far and equal to the answer of a fresh
+// query object that received the same geometry.
+func opC10HullQ(raw json.RawMessage, o *Out) {
+	var c struct {
+		N     int
+		Steps []c10HQStep
+	}
+	if err := json.Unmarshal(raw, &c); err != nil {
+		panic(err)
+	}
+	q := s2.NewConvexHullQuery()
+	names := ""
+	adds, queries := 0, 0
+	for i, st := range c.Steps {
+		names += st.A + ";"
+		if st.Want == nil {
+			c10HQApply(q, st)
+			adds++
+			continue
+		}
+		queries++
+		fresh := s2.NewConvexHullQuery()
+		for _, prev := range c.Steps[:i] {
+			if prev.Want == nil {
+				c10HQApply(fresh, prev)
+			}
+		}
+		w := st.Want
+		desc := fmt.Sprintf("history %s (step %d) inputs %v", names, i+1, w.Inputs)
+		if st.A == "CapBound" {
+			cp, cf := q.CapBound(), fresh.CapBound()
+			if !cp.Equal(cf) {
+				o.Fail("c10.hullq/cap-differs-from-fresh-query", "CapBound() %v, a fresh query with the same geometry gives %v: %s", cp, cf, desc)
+			}
+			// (1e-12 slack: the cap of a rectangle is known to miss its own corners by an ulp, see c10/cap-bound-ulp/*)
+			wide := cp.Expanded(s1.Angle(1e-12))
+			for _, v := range w.Inputs {
+				if !wide.ContainsPoint(emb.Unit(v)) {
+					o.Fail("c10.hullq/cap-excludes-input", "CapBound() %v does not contain the input %v: %s", cp, v, desc)
+					break
+				}
+			}
+			continue
+		}
+		h, hf := q.ConvexHull(), fresh.ConvexHull()
+		same := h.NumVertices() == hf.NumVertices()
+		for k := 0; same && k < h.NumVertices(); k++ {
+			same = h.Vertex(k) == hf.Vertex(k)
+		}
+		if !same {
+			o.Fail("c10.hullq/hull-differs-from-fresh-query", "ConvexHull() %v, a fresh query with the same geometry gives %v: %s", h.Vertices(), hf.Vertices(), desc)
+		}
+		if h.IsFull() || h.IsEmpty() {
+			o.Fail("c10.hullq/full-or-empty", "ConvexHull() of points inside a 55-degree cap is empty/full: %s", desc)
+			continue
+		}
+		back := map[s2.Point]emb.P3{}
+		for _, v := range w.Inputs {
+			back[emb.Unit(v)] = v
+		}
+		if w.N < 3 {
+			for _, p := range w.Hull {
+				found := false
+				for k := 0; k < h.NumVertices(); k++ {
+					if h.Vertex(k) == emb.Unit(p) {
+						found = true
+					}
+				}
+				if !found {
+					o.Fail("c10.hullq/small-set-vertex", "hull of %d point(s) lacks the input %v as a vertex: %s", w.N, p, desc)
+				}
+			}
+			continue
+		}
+		var got []emb.P3
+		foreign := false
+		for k := 0; k < h.NumVertices(); k++ {
+			p, ok := back[h.Vertex(k)]
+			if !ok {
+				foreign = true
+			}
+			got = append(got, p)
+		}
+		if foreign {
+			o.Fail("c10.hullq/foreign-vertex", "hull %v has a vertex that is not an input: %s", h.Vertices(), desc)
+			continue
+		}
+		for k := 0; k < h.NumVertices(); k++ {
+			if s2.RobustSign(h.Vertex(k), h.Vertex(k+1), h.Vertex(k+2)) != s2.CounterClockwise {
+				o.Fail("c10.hullq/not-convex", "hull %v makes a non-CCW turn at %v: %s", got, got[(k+1)%len(got)], desc)
+				break
+			}
+		}
+		in := map[emb.P3]bool{}
+		for _, p := range got {
+			in[p] = true
+		}
+		if w.Robust && !c10SameCycle(got, w.Hull) {
+			o.Fail("c10.hullq/cycle", "hull %v, model (exact orientation tests) %v: %s", got, w.Hull, desc)
+		}
+		for _, p := range w.Must {
+			if !in[p] {
+				o.Fail("c10.hullq/missing-extreme-point", "strictly extreme %v is not a hull vertex; hull %v: %s", p, got, desc)
+				break
+			}
+		}
+		for _, p := range w.Mustnot {
+			if in[p] {
+				o.Fail("c10.hullq/interior-point-is-vertex", "strictly interior %v is a hull vertex; hull %v: %s", p, got, desc)
+				break
+			}
+		}
+		for _, v := range w.Inputs {
+			if !in[v] && !h.ContainsPoint(emb.Unit(v)) {
+				o.Fail("c10.hullq/input-not-contained", "input vertex %v is neither a hull vertex nor contained; hull %v: %s", v, got, desc)
+				break
+			}
+		}
+	}
+	o.nontrivial = adds >= 2 && queries >= 1
+	o.CountN("hullq_query_steps", queries)
+	o.sample = map[string]any{"op": "c10.hullq", "history": names}
 }
